@@ -49,12 +49,12 @@ type kViolation struct {
 }
 
 type kSpec struct {
-	SeedBase  int64    `json:"seed_base"`
-	IndexFrom int64    `json:"index_from"`
-	Stride    int64    `json:"stride"`
-	Count     int64    `json:"count"`
-	BudgetMs  int64    `json:"budget_ms"`
-	Out       string   `json:"out"`
+	SeedBase  int64     `json:"seed_base"`
+	IndexFrom int64     `json:"index_from"`
+	Stride    int64     `json:"stride"`
+	Count     int64     `json:"count"`
+	BudgetMs  int64     `json:"budget_ms"`
+	Out       string    `json:"out"`
 	Replay    *kHistory `json:"replay,omitempty"`
 }
 
@@ -312,30 +312,28 @@ func (k *kRunner) step(i int, st kStep) bool {
 			}()
 			served <- k.svc.Listen(ctx, st.Addr, 0)
 		}()
-		// wait until it is listening or has returned
-		deadline := time.Now().Add(20 * time.Second)
-		for {
-			if l, _ := k.svc.GetListener(); l != nil && l != before {
-				break
-			}
-			select {
-			case err := <-served:
-				serving = false
-				bindErr = err
-				if err == nil {
-					bindErr = fmt.Errorf("Listen returned nil at once")
+		// wait until it is listening or has returned (GetListener takes the
+		// service's lock, so the whole wait is guarded)
+		_, ok := k.guarded(i, "Listen (neither listening nor returned)", func() error {
+			for {
+				if l, _ := k.svc.GetListener(); l != nil && l != before {
+					return nil
 				}
-			default:
+				select {
+				case err := <-served:
+					serving = false
+					bindErr = err
+					if err == nil {
+						bindErr = fmt.Errorf("Listen returned nil at once")
+					}
+					return nil
+				default:
+				}
+				time.Sleep(200 * time.Microsecond)
 			}
-			if !serving {
-				break
-			}
-			if time.Now().After(deadline) {
-				k.fail(i, "returns", "Listen neither listening nor returned", "after 20 s")
-				k.hung = true
-				return false
-			}
-			time.Sleep(200 * time.Microsecond)
+		})
+		if !ok {
+			return false
 		}
 		if bindErr != nil && strings.HasPrefix(bindErr.Error(), "PANIC: ") {
 			k.fail(i, "no-panic", "panic in Listen", "%v", bindErr)
